@@ -480,6 +480,15 @@ func c09Gen(rng *rand.Rand, tier string) []Case {
 			out = append(out, Case{ID: fmt.Sprintf("%s%d", prefix, c), Ops: ops, Nontrivial: true, Tags: []string{tag}})
 		}
 	}
+	// replies racing the application's early Close of the query: a schedule-dependent search (see closeRace)
+	nr, rounds := 2, 12000
+	if tier == "thorough" {
+		nr, rounds = 24, 60000
+	}
+	for c := 0; c < nr; c++ {
+		out = append(out, Case{ID: fmt.Sprintf("cr%d", c), Ops: []string{fmt.Sprintf("inj closerace %d %d %d", rounds, 4+2*(c%2), 1+rng.Intn(1<<15)), "alive"},
+			Nontrivial: true, Tags: []string{"close-race"}})
+	}
 	mk("s", nStruct, g.structured, "structured")
 	mk("b", nBytes, g.byteLevel, "bytes")
 	// the name-conflict vote with arbitrary reply payloads: short cases (each vote lasts one query timeout)
